@@ -169,6 +169,8 @@ def run_c15(tier, seed):
     # both ports enabled but no server certificate configured: Start fails; whatever it had opened must be given back by Stop
     BADTLS = ["both-badtls %s" % s for s in ("SX", "SXSX", "SSX", "RX", "SXRX")]
     lines += BADTLS
+    # clients that send QUIT, read the reply and keep their socket open (op q): released at once, nothing left of them at Stop
+    lines += ["plain-quit %s" % s for s in ("SqX", "ScqX", "SqqcX", "SqRqX", "SqcdX", "SqXSqX")]
     shards = 8
     from concurrent.futures import ThreadPoolExecutor
     n = len(lines)
@@ -178,7 +180,7 @@ def run_c15(tier, seed):
         for r, o in ex.map(lambda part: run_mode(chk, "life", [], "\n".join(part) + "\n", timeout=1500), parts):
             rows += r
     # the lifecycle model's prediction (Coq: LifecycleThms.life_model, extracted) for the same sequences
-    mlines = [l for l in lines if not l.startswith("both-badtls")]
+    mlines = [l for l in lines if not l.startswith("both-badtls") and not l.startswith("plain-quit")]
     rc, mo, _ = vlib.run_model(["life"], "\n".join(mlines) + "\n", timeout=900)
     pred = {}
     for l in mo.splitlines():
@@ -254,6 +256,11 @@ def run_c19(tier, seed):
     rng = random.Random(seed)
     ncases, nval, ends, samples = run_c19_conn(chk, rng, tier)
     cycles = 220 if tier == "quick" else 10000
+    # a reader that stays stalled longer than every duration written in the source under test (write deadlines, timeouts): none on the pinned tree
+    import thresholds as T
+    durs = [d for d in T.mined_durations() if 0.2 <= d <= 30]
+    if durs:
+        os.environ["VERIF_STALL_MS"] = str(int((max(durs) + 2) * 1000))
     rows, o = run_mode(chk, "churn", [str(cycles), str(seed)], timeout=3000)
     batches = 0
     modes = {}
